@@ -1,4 +1,5 @@
 import LunarVerif.Proofs.C14Holds
+import LunarVerif.Proofs.C14Reload
 /-!
 # C14 — Traffic a flow or policy must see is always registered as managed
 
@@ -86,13 +87,23 @@ theorem every_method_registered (cfg : Cfg) (d : Decl) (method : String) (hd : d
       formatEndpoint (methodText meth) d.url.toList ∈ registered cfg :=
   registered_mem cfg d method hd he hm
 
+/-- Policy side of the registration (`BuildHAProxyEndpointsRequest`: one entry per ENABLED remedy, then per
+    enabled diagnosis): every endpoint of which the engine applies at least one enabled plugin — whatever the
+    number, kind and order of its enabled and disabled plugins — has its expression registered. -/
+theorem enabled_plugin_registered (ps : List Policy) (g : Bool) (p : Policy) (hp : p ∈ ps)
+    (he : p.enabled = true) :
+    formatEndpoint p.method.toList p.url.toList ∈ registered (.policies ps g) :=
+  policy_registered ps g p hp he
+
 /-- CONNECTION (partial form: F14d and F14e stay open).  For every configuration and request within the input
     assumptions (patterns `validateURL` accepts, canonical texts, token methods) and ANY set of declared names
-    the engine may select: with the model's `managedB`, the judge's verdict is never a violation outside the
-    open classes. -/
+    the engine may select SOUNDLY up to the host/path boundary (`hsound`: no selected declaration is classified
+    `overmatch`; that is C03's / C13's soundness theorem): with the model's `managedB`, the judge's verdict is
+    never a violation outside the open classes. -/
 theorem c14_holds_partial (cfg : Cfg) (method url : String) (sel : List String)
     (hA : ∀ d ∈ declsOf cfg, untrimmed d url = true → assumptionsOK d method url = true)
-    (hsel : ∀ n ∈ sel, (findDecl (declsOf cfg) n).isSome = true) :
+    (hsel : ∀ n ∈ sel, (findDecl (declsOf cfg) n).isSome = true)
+    (hsound : ∀ n ∈ sel, ∀ d, findDecl (declsOf cfg) n = some d → classify d method url ≠ some .overmatch) :
     ∀ why, reqVerdict (declsOf cfg) method url sel (managedB cfg method url) ≠ .violated why := by
   intro why hv
   unfold reqVerdict at hv
@@ -129,7 +140,18 @@ theorem c14_holds_partial (cfg : Cfg) (method url : String) (sel : List String)
           have := clean_managed cfg d method url hmem (hA d hmem hun) hx
           rw [this] at hnot
           exact absurd hnot.2 (by simp)
-      · split at hv <;> cases hv
+      · split at hv
+        · rename_i hany
+          simp only [List.any_eq_true, List.mem_map, beq_iff_eq] at hany
+          obtain ⟨x, ⟨n, hn, hx⟩, hxn⟩ := hany
+          rw [hxn] at hx
+          cases hfd : findDecl (declsOf cfg) n with
+          | none => rw [hfd] at hx; simp at hx
+          | some d =>
+            rw [hfd] at hx
+            simp only [Option.map_some, Option.some.injEq] at hx
+            exact hsound n hn d hfd hx
+        · split at hv <;> cases hv
 
 /-- The property predicate itself, for a selection that contains a clean declaration. -/
 theorem selected_clean_is_managed (cfg : Cfg) (method url : String) (sel : List String) (d : Decl)
@@ -262,6 +284,67 @@ example :
     managedB cfg "POST" "api.com/users/7" = true ∧ managedB cfg "HEAD" "api.com/users/7" = false ∧
     managedB cfg "HEAD" "api.com/v1/a" = true ∧
     reqVerdict (declsOf cfg) "POST" "api.com/users/7" ["f1"] (managedB cfg "POST" "api.com/users/7") = .ok := by
+  decide
+
+/-! ## Lifetime: what stays registered over a sequence of reloads (`Model/C14Reload.lean`)
+
+"For every flow filter or policy endpoint the engine LOADS … no transaction bypasses the engine" has a time
+dimension: after a (re)load has settled (`ttl` = staleVersionTTL later, every scheduled un-manage has fired), what
+the configuration in force requires must (still) be in the proxy's map.  The code as it is (`Reload.Mode.ptr`)
+violates this on EVERY second load (F14g); comparing entries by text (`Mode.byString`, F14g.patch) repairs the
+histories whose reloads wait for one another; stamping registrations (`Mode.stamped`, + F14h.patch) repairs all. -/
+
+open LunarVerif.C14.Reload
+
+/-- F14g on the code as it is: the SAME configuration loaded twice; 30 s later both of its expressions — still
+    required, re-registered by the second load — are removed from the map (`lo.Difference` on pointers). -/
+theorem reload_unmanages_surviving_endpoints_witness :
+    let a : Req := ⟨false, ["GET:::api\\.com/x$", "POST:::api\\.com/y$"]⟩
+    let st := run .ptr {} [.reload a, .reload a, .advance ttl]
+    st.jobs = [] ∧ st.managed = [] ∧ requiredOK st.cur st.all st.managed = false ∧
+    requiredOK a false (run .ptr {} [.reload a, .reload a, .advance (ttl - 1)]).managed = true := by
+  decide
+
+/-- … and with entries compared by text (F14g.patch alone) a STALE job still removes what a later reload
+    registered again: A → B → A within the TTL (F14h); the same with manage-all (on → off → on). -/
+theorem stale_unmanage_witness :
+    let a : Req := ⟨false, ["GET:::a\\.com/x$"]⟩
+    let b : Req := ⟨false, ["GET:::a\\.com/y$"]⟩
+    let st := run .byString {} [.reload a, .reload b, .advance 10000, .reload a, .advance ttl]
+    let g : Req := ⟨true, []⟩
+    let st' := run .byString {} [.reload g, .reload b, .advance 10000, .reload g, .advance ttl]
+    st.jobs = [] ∧ requiredOK st.cur st.all st.managed = false ∧
+    st'.jobs = [] ∧ requiredOK st'.cur st'.all st'.managed = false := by
+  decide
+
+/-- Lifetime property at full strength (code after F14g.patch + F14h.patch): for EVERY history of reloads and
+    time steps, at every instant — settled or not — everything the configuration in force requires is managed. -/
+theorem managed_after_reload (evs : List Ev) :
+    let st := run .stamped {} evs
+    requiredOK st.cur st.all st.managed = true :=
+  requiredOK_of_inv _ (inv_run evs {} inv_init)
+
+/-- … with F14g.patch alone: for every history in which a reload happens only when the previous ones have
+    settled (no un-manage pending). -/
+theorem managed_after_reload_spaced (evs : List Ev) (hs : Spaced {} evs) :
+    let st := run .byString {} evs
+    requiredOK st.cur st.all st.managed = true :=
+  requiredOK_of_invS _ (invS_run evs {} invS_init hs)
+
+/-- Non-vacuity: the histories of the two witnesses satisfy the property in the stamped mode, and something is
+    really un-managed there (the entry that left the configuration). -/
+example :
+    let a : Req := ⟨false, ["GET:::a\\.com/x$"]⟩
+    let b : Req := ⟨false, ["GET:::a\\.com/y$"]⟩
+    let st := run .stamped {} [.reload a, .reload b, .advance 10000, .reload a, .advance ttl]
+    st.jobs = [] ∧ st.managed = ["GET:::a\\.com/x$", "GET:::a\\.com/x$"] ∧
+    requiredOK st.cur st.all st.managed = true := by
+  decide
+
+/-- … and the hypothesis of `managed_after_reload_spaced` is satisfiable by a history with two real reloads. -/
+example : Spaced {} [.reload ⟨false, ["GET:::a\\.com/x$"]⟩, .advance ttl, .reload ⟨false, ["GET:::a\\.com/y$"]⟩,
+    .advance ttl] := by
+  simp only [Spaced]
   decide
 
 end LunarVerif.C14
